@@ -812,6 +812,9 @@ fn build_impl(raw: &RawRecipe, strict: bool, bare_timers: bool) -> RecipeM {
                             }
                             // after an inline quantity a blank is needed (unit ends at whitespace)
                             (TokM::Inline { .. }, _) => space_before = true,
+                            // a component kept as text ends where it was written: a glued `(` or word would be
+                            // absorbed into it (note, name) together with its escapes
+                            (TokM::Raw(_), _) => space_before = true,
                             // `(` glued after a component would be a note
                             (TokM::Comp(_) | TokM::Timer(_), TokM::Punct(p)) if p == "(" => space_before = true,
                             // a word / number glued after a brace-less component would extend its name
